@@ -59,6 +59,8 @@ ConvFails(e) ==
   \* a floating-point value without an integer part that 64 bits can hold (NaN, an infinity, 2^63 and beyond): the host language
   \* defines no result for converting it to an integer type, so an error is as good as a value
   ELSE IF e.outcome = "error" /\ "vfits" \in DOMAIN e /\ ~e.vfits /\ e.v.t \in {"Float", "Double"} /\ e.to \in {"Integer", "Long", "TimeSpan", "DateTime"} THEN ""
+  \* a text that spells no number: what its conversion to a number is (zero, an error) is not stated
+  ELSE IF e.outcome = "error" /\ "vfits" \in DOMAIN e /\ ~e.vfits /\ e.v.t = "String" /\ e.to \in {"Integer", "Long", "Float", "Double", "TimeSpan", "DateTime"} THEN ""
   ELSE F(e.outcome = "value", "a supported conversion yielded an error")
     \o (IF e.outcome # "value" THEN ""
         ELSE IF ConvIdentity(e.v.t, e.to) THEN F(e.r.t = e.v.t /\ e.r.s = e.v.s, "requesting Object or the value's own type did not return the unchanged value")
